@@ -30,7 +30,7 @@ Leaves(g, open, prof) ==
 Unary(x, prof) ==
    (IF Repeatable(x) THEN {Rep(x, q[1], q[2], q[3]) : q \in prof.quants} ELSE {})
    \cup (IF prof.looks THEN {Look(x), NLook(x)} ELSE {})
-   \cup (IF prof.lookbs /\ LookBehindOK(x) THEN {LookB(x), NLookB(x)} ELSE {})
+   \cup (IF prof.lookbs /\ (LookBehindOK(x) \/ ("lbany" \in DOMAIN prof /\ prof.lbany)) THEN {LookB(x), NLookB(x)} ELSE {})
    \cup (IF prof.atomics THEN {Atom(x)} ELSE {})
 
 RECURSIVE P(_, _, _, _)
@@ -264,6 +264,12 @@ ProfCase ==
     quants |-> Quants4, looks |-> TRUE, lookbs |-> FALSE, atomics |-> TRUE, groups |-> TRUE,
     brefs |-> TRUE, bexs |-> FALSE, conds |-> FALSE, unrestricted |-> FALSE]
 
-Prof(name) == CASE name = "core" -> ProfCore [] name = "case" -> ProfCase [] name = "iter" -> ProfIter [] name = "cond" -> ProfCond
+\* C13 space: look-behinds over ANY body (so that the compile-time decision is exercised), conditionals
+ProfLB ==
+   [atoms |-> {Lit("a"), Lit("E"), AnyC, Class(<<"a", "b">>)},
+    quants |-> {<<0, 1, TRUE>>, <<0, -1, TRUE>>, <<2, 2, TRUE>>, <<1, 2, FALSE>>}, looks |-> FALSE, lookbs |-> TRUE, lbany |-> TRUE,
+    atomics |-> FALSE, groups |-> TRUE, brefs |-> FALSE, bexs |-> TRUE, conds |-> TRUE, unrestricted |-> FALSE]
+
+Prof(name) == CASE name = "core" -> ProfCore [] name = "lb" -> ProfLB [] name = "case" -> ProfCase [] name = "iter" -> ProfIter [] name = "cond" -> ProfCond
                 [] name = "wild" -> ProfWild [] name = "plain" -> ProfPlain
 =============================================================================
